@@ -3,6 +3,7 @@
 // oracle is the byte-exact model image of the whole output allocation (payload, stride padding,
 // limbs past res_size, guard zones) and of every input.
 #include "../harness/vecops.hpp"
+#include "../harness/hugestride.hpp"
 extern "C" {
 #include "coeffs/coeffs_arithmetic.h"
 }
@@ -153,8 +154,18 @@ int main(int argc, char** argv) {
   std::stable_sort(items.begin(), items.end(), [](const Item& a, const Item& b) { return a.N > b.N; });
   ctx.parallel(items.size(), [&](uint64_t i) { run_item(ctx, items[i]); }, "vec ops");
   ctx.parallel(1, [&](uint64_t) { run_kernels(ctx); }, "kernels");
+  // huge strides: limb offsets beyond 2^31 / 2^32 elements or bytes (sparse PROT_NONE reservations, only the limbs are accessible)
+  struct HItem { uint64_t N; int op; int mt; CpuCfg cfg; };
+  std::vector<HItem> hitems;
+  for (uint64_t N : {8, 1024})
+    for (int op = 0; op < NVECOPS; ++op)
+      for (int mt = 0; mt < 2; ++mt) {
+        if (mt == 1 && VECOPS[op].fft64_only) continue;
+        for (auto& c : cf) hitems.push_back({N, op, mt, c});
+      }
+  ctx.parallel(hitems.size(), [&](uint64_t i) { huge_stride_vecops(ctx, hitems[i].N, hitems[i].op, hitems[i].mt, hitems[i].cfg); }, "huge strides");
   ctx.assumptions = {"inputs bounded by 2^62 in absolute value (no int64 overflow in add/sub/negate)",
-                     "strides >= N; big operands have stride N by definition",
+                     "strides >= N; big operands have stride N by definition; strides up to 2^32 + N + 1 elements (limb offsets beyond 32-bit element and byte arithmetic) are part of the box",
                      "the ops are element-wise with shape-only control flow: one injective 62-bit probe per shape fixes the behaviour; the element function is enumerated on the value-alphabet square separately"};
   Json extra = Json::obj();
   Json ns = Json::arr();
@@ -163,6 +174,7 @@ int main(int argc, char** argv) {
   extra.set("ring_dimensions", ns).set("ops", NVECOPS).set("cfgs", (int)cf.size());
   return ctx.finish("exploration",
                     "nested product op x N x module type x cfg x (res_size,a_size,b_size) in {0,1,2,3,5,9}^3 x strides {N,N+1,N+3,2N+5} per small operand x p set; "
+                    "plus a huge-stride layer (2^28+N+1, 2^29+N, 2^31+N+3, 2^32+N+1 on every non-empty subset of the small operands, 2-3 limbs, N = 8 and 1024); "
                     "a case is non-trivial when res_size > 0 (something must be written); distinct = distinct case ids",
                     true, extra);
 }
